@@ -245,10 +245,14 @@ class FakeMotor(_Base):
 
     def _stage(self):
         self.ctx.op(self, "stage")
+        if getattr(self.ctx, "stage_status", False):  # ophyd-async flavour: stage()/unstage() return a Status
+            return make_status(self.ctx, f"{self.name}.stage", ("now",))
         return [self]
 
     def _unstage(self):
         self.ctx.op(self, "unstage")  # may be made to raise by the fault plan
+        if getattr(self.ctx, "stage_status", False):
+            return make_status(self.ctx, f"{self.name}.unstage", ("now",))
         return [self]
 
 
@@ -318,10 +322,14 @@ class FakeDet(_Base):
 
     def _stage(self):
         self.ctx.op(self, "stage")
+        if getattr(self.ctx, "stage_status", False):  # ophyd-async flavour: stage()/unstage() return a Status
+            return make_status(self.ctx, f"{self.name}.stage", ("now",))
         return [self]
 
     def _unstage(self):
         self.ctx.op(self, "unstage")  # may be made to raise by the fault plan
+        if getattr(self.ctx, "stage_status", False):
+            return make_status(self.ctx, f"{self.name}.unstage", ("now",))
         return [self]
 
     def _pause(self):
